@@ -3,6 +3,7 @@ package main
 import (
 	"fmt"
 	"go/ast"
+	"go/token"
 	"go/types"
 	"sort"
 	"strings"
@@ -600,6 +601,20 @@ func ruleConstCache(c *Ctx, r *Report, rule string) {
 				if s1, ok1 := c.strConst(a); ok1 {
 					if s2, ok2 := c.strConst(b); ok2 && s1 == s2 {
 						same = true
+					}
+					// a constant key, and the path to the store has established that the added value equals it
+					if !same {
+						for _, f := range splitFacts(c.factsAt(fd.Body, as)) {
+							rel, isRel := c.relOf(condAtom{E: stripParens(f.Cond), Pos: f.Pos, Init: f.Init})
+							if !isRel || rel.Op != token.EQL {
+								continue
+							}
+							for _, side := range [][2]ast.Expr{{rel.L, rel.R}, {rel.R, rel.L}} {
+								if k, isK := c.strConst(side[1]); isK && k == s1 && c.sameExpr(core(side[0]), b) {
+									same = true
+								}
+							}
+						}
 					}
 				}
 			}
